@@ -155,7 +155,7 @@ impl DcpsDomainParticipant {
                                                 .parse()
                                                 .expect("valid number"),
                                         ) {
-                                            continue 'data_readers;
+                                            continue;
                                         }
                                     }
                                     crate::xtypes::dynamic_type::TypeKind::INT64 => todo!(),
@@ -177,7 +177,7 @@ impl DcpsDomainParticipant {
                                             member_value,
                                             &content_filtered_topic.expression_parameters[0],
                                         ) {
-                                            continue 'data_readers;
+                                            continue;
                                         }
                                     }
                                     crate::xtypes::dynamic_type::TypeKind::ALIAS => todo!(),
